@@ -19,19 +19,22 @@ theorem copy16_of_length {ip : IP} (h : ip.length = 16) : copy16 ip = ip := by
   rw [h, List.take_of_length_le (by omega)]
   simp
 
-theorem fill_v4 {ip : IP} (h : ip.length = 4) (p : Int) : fill ip p = ⟨v4InV6Prefix ++ ip, p⟩ := by
+theorem fill_v4 {ip : IP} (h : ip.length = 4) (z : String) (p : Int) : fill ip z p = ⟨v4InV6Prefix ++ ip, z, p⟩ := by
   simp [fill, h]
 
-theorem fill_v6 {ip : IP} (h : ip.length = 16) (p : Int) : fill ip p = ⟨ip, p⟩ := by
+theorem fill_v6 {ip : IP} (h : ip.length = 16) (z : String) (p : Int) : fill ip z p = ⟨ip, z, p⟩ := by
   have : ¬ ip.length = 4 := by omega
   simp [fill, this, copy16_of_length h]
 
-theorem fill_ip_length {ip : IP} (h : ValidIP ip) (p : Int) : (fill ip p).ip.length = 16 := by
+theorem fill_ip_length {ip : IP} (h : ValidIP ip) (z : String) (p : Int) : (fill ip z p).ip.length = 16 := by
   rcases h with h | h
   · rw [fill_v4 h]; simp [v4InV6Prefix_length, h]
   · rw [fill_v6 h]; exact h
 
-theorem fill_port (ip : IP) (p : Int) : (fill ip p).port = p := by
+theorem fill_port (ip : IP) (z : String) (p : Int) : (fill ip z p).port = p := by
+  unfold fill; split <;> rfl
+
+theorem fill_zone (ip : IP) (z : String) (p : Int) : (fill ip z p).zone = z := by
   unfold fill; split <;> rfl
 
 theorem ipEqual_same_len {a b : IP} (h : a.length = b.length) : ipEqual a b = (a == b) := by
@@ -57,28 +60,34 @@ theorem append_eq_iff_take_drop {pre a b : IP} (hp : pre.length = 12) :
     rw [← h1, ← h2]; exact List.take_append_drop 12 b
 
 /-- **fill is injective exactly up to Go's notion of address equality**: two sources get the same map
-key iff their ports are equal and `net.IP.Equal` holds (so `127.0.0.1` and `::ffff:127.0.0.1`
-share a key, nothing else does). -/
-theorem fill_eq_iff {a b : IP} (ha : ValidIP a) (hb : ValidIP b) (pa pb : Int) :
-    fill a pa = fill b pb ↔ pa = pb ∧ ipEqual a b = true := by
+key iff their ports are equal, their zones are equal and `net.IP.Equal` holds (so `127.0.0.1` and
+`::ffff:127.0.0.1` share a key, nothing else does). -/
+theorem fill_eq_iff {a b : IP} (ha : ValidIP a) (hb : ValidIP b) (za zb : String) (pa pb : Int) :
+    fill a za pa = fill b zb pb ↔ pa = pb ∧ za = zb ∧ ipEqual a b = true := by
   rcases ha with ha | ha <;> rcases hb with hb | hb
   · rw [fill_v4 ha, fill_v4 hb, ipEqual_same_len (by omega)]
-    simp [ClientAddr.mk.injEq, and_comm]
+    simp only [ClientAddr.mk.injEq, List.append_cancel_left_eq, beq_iff_eq]
+    constructor
+    · rintro ⟨h1, h2, h3⟩; exact ⟨h3, h2, h1⟩
+    · rintro ⟨h3, h2, h1⟩; exact ⟨h1, h2, h3⟩
   · rw [fill_v4 ha, fill_v6 hb, ipEqual_4_16 ha hb]
     simp only [ClientAddr.mk.injEq, append_eq_iff_take_drop v4InV6Prefix_length, Bool.and_eq_true, beq_iff_eq]
     constructor
-    · rintro ⟨⟨h1, h2⟩, h3⟩; exact ⟨h3, h1, h2.symm⟩
-    · rintro ⟨h3, h1, h2⟩; exact ⟨⟨h1, h2.symm⟩, h3⟩
+    · rintro ⟨⟨h1, h2⟩, hz, h3⟩; exact ⟨h3, hz, h1, h2.symm⟩
+    · rintro ⟨h3, hz, h1, h2⟩; exact ⟨⟨h1, h2.symm⟩, hz, h3⟩
   · rw [fill_v6 ha, fill_v4 hb, ipEqual_16_4 ha hb]
     simp only [ClientAddr.mk.injEq, Bool.and_eq_true, beq_iff_eq]
     constructor
-    · rintro ⟨h1, h3⟩
+    · rintro ⟨h1, hz, h3⟩
       have := (append_eq_iff_take_drop (a := b) (b := a) v4InV6Prefix_length).1 h1.symm
-      exact ⟨h3, this.1, this.2⟩
-    · rintro ⟨h3, h1, h2⟩
-      exact ⟨((append_eq_iff_take_drop v4InV6Prefix_length).2 ⟨h1, h2⟩).symm, h3⟩
+      exact ⟨h3, hz, this.1, this.2⟩
+    · rintro ⟨h3, hz, h1, h2⟩
+      exact ⟨((append_eq_iff_take_drop v4InV6Prefix_length).2 ⟨h1, h2⟩).symm, hz, h3⟩
   · rw [fill_v6 ha, fill_v6 hb, ipEqual_same_len (by omega)]
-    simp [ClientAddr.mk.injEq, and_comm]
+    simp only [ClientAddr.mk.injEq, beq_iff_eq]
+    constructor
+    · rintro ⟨h1, h2, h3⟩; exact ⟨h3, h2, h1⟩
+    · rintro ⟨h3, h2, h1⟩; exact ⟨h1, h2, h3⟩
 
 theorem ipEqual_refl (a : IP) : ipEqual a a = true := by simp [ipEqual]
 
@@ -103,8 +112,8 @@ theorem ipEqual_comm (a b : IP) : ipEqual a b = ipEqual b a := by
 /-- `net.IP.Equal` is transitive on kernel addresses (consequence of `fill_eq_iff`). -/
 theorem ipEqual_trans {a b c : IP} (ha : ValidIP a) (hb : ValidIP b) (hc : ValidIP c)
     (h1 : ipEqual a b = true) (h2 : ipEqual b c = true) : ipEqual a c = true := by
-  have e1 := (fill_eq_iff ha hb 0 0).2 ⟨rfl, h1⟩
-  have e2 := (fill_eq_iff hb hc 0 0).2 ⟨rfl, h2⟩
-  exact ((fill_eq_iff ha hc 0 0).1 (e1.trans e2)).2
+  have e1 := (fill_eq_iff ha hb "" "" 0 0).2 ⟨rfl, rfl, h1⟩
+  have e2 := (fill_eq_iff hb hc "" "" 0 0).2 ⟨rfl, rfl, h2⟩
+  exact ((fill_eq_iff ha hc "" "" 0 0).1 (e1.trans e2)).2.2
 
 end Rtsp.Peer
